@@ -139,7 +139,7 @@ def run_program(tagnames, events, H, realbase=False):
             base_log[:] = ["t:" + m for m in _re.findall(r'^<div id="(t\d+)"', capture.getvalue(), _re.M)]
         rec.append({"act": e["act"], "t": e["t"], "g": e["g"], "v": e["v"],
                     "hook": hook_of.get(id(h), "?"), "exc": exc, "kids": proj_kids(), "base": list(base_log),
-                    "raised": raised})
+                    "raised": raised, "caught": False})
 
     class Pending(Exception):
         """carries the real exception plus where the program stood"""
@@ -166,6 +166,16 @@ def run_program(tagnames, events, H, realbase=False):
                     ex._pos = pos + 1
                     raise
                 observe(pos, "None")
+                pos += 1
+            elif act == "DisplayC":
+                # the display sits in a try/except INSIDE the block: a rejected value is handled right there
+                caught = False
+                try:
+                    sys.displayhook(conc_val(e["v"], H, shared))
+                except TypeError:
+                    caught = True
+                observe(pos, "None")
+                rec[-1]["caught"] = caught
                 pos += 1
             elif act == "Raise":
                 ex = UserErr()
@@ -271,6 +281,9 @@ def well_formed_random(rnd, tagnames, maxevents, maxdepth):
             used.add(t)
             stack.append((t, g))
             events.append({"act": "Enter", "t": t, "g": g, "v": ""})
+            n += 1
+        elif r < 0.45 and stack:
+            events.append({"act": "DisplayC", "t": "", "g": False, "v": rnd.choice(vals + list(BAD))})
             n += 1
         elif r < 0.8 and stack:
             v = rnd.choice(vals)
